@@ -32,6 +32,10 @@ type RTarget struct {
 	SleepMs int      `json:",omitempty"`
 	Fail    bool     `json:",omitempty"` // command exits 3 (after logging S)
 	Extra   string   `json:",omitempty"` // extra raw keyword arguments, rendered verbatim (", key=value")
+	// Requires / Provides model plz's require/provide mechanism: when a target that requires key k
+	// depends on a target that provides {k: L}, the dependency is replaced by L.
+	Requires []string          `json:",omitempty"`
+	Provides map[string]string `json:",omitempty"`
 }
 
 // Label returns //pkg:name.
@@ -68,6 +72,13 @@ func (r *Repo) Clone() *Repo {
 		tt := *t
 		tt.Srcs = append([]RSrc{}, t.Srcs...)
 		tt.Outs = append([]string{}, t.Outs...)
+		tt.Requires = append([]string{}, t.Requires...)
+		if t.Provides != nil {
+			tt.Provides = map[string]string{}
+			for k, v := range t.Provides {
+				tt.Provides[k] = v
+			}
+		}
 		c.Targets = append(c.Targets, &tt)
 	}
 	return c
@@ -157,6 +168,35 @@ func (t *RTarget) Deps() []string {
 	return out
 }
 
+// ResolvedDeps returns the labels a target really depends on once require/provide has been applied
+// (sorted, unique). Without Requires/Provides this equals t.Deps().
+func (r *Repo) ResolvedDeps(t *RTarget) []string {
+	if len(t.Requires) == 0 {
+		return t.Deps()
+	}
+	set := map[string]bool{}
+	for _, d := range t.Deps() {
+		replaced := false
+		if dt := r.Target(d); dt != nil {
+			for _, k := range t.Requires {
+				if l, ok := dt.Provides[k]; ok {
+					set[l] = true
+					replaced = true
+				}
+			}
+		}
+		if !replaced {
+			set[d] = true
+		}
+	}
+	var out []string
+	for k := range set {
+		out = append(out, k)
+	}
+	sort.Strings(out)
+	return out
+}
+
 // TransitiveDeps returns the dependency closure of the given labels (including themselves).
 func (r *Repo) TransitiveDeps(labels []string) map[string]bool {
 	seen := map[string]bool{}
@@ -167,7 +207,7 @@ func (r *Repo) TransitiveDeps(labels []string) map[string]bool {
 		}
 		seen[l] = true
 		if t := r.Target(l); t != nil {
-			for _, d := range t.Deps() {
+			for _, d := range r.ResolvedDeps(t) {
 				visit(d)
 			}
 		}
@@ -258,7 +298,7 @@ func (r *Repo) Eval() (outs map[string][]OutEnt, ok map[string]bool) {
 					es = append(es, OutEnt{f, &Node{Name: filepath.Base(f), Content: rf.Content}})
 				}
 			}
-			for _, d := range t.Deps() {
+			for _, d := range r.ResolvedDeps(t) {
 				for _, o := range outs[d] {
 					if !seen[o.Rel] {
 						seen[o.Rel] = true
@@ -274,7 +314,7 @@ func (r *Repo) Eval() (outs map[string][]OutEnt, ok map[string]bool) {
 					ins = append(ins, input{t.Pkg + "/" + f, &Node{Name: filepath.Base(f), Content: rf.Content}})
 				}
 			}
-			for _, d := range t.Deps() {
+			for _, d := range r.ResolvedDeps(t) {
 				dt := r.Target(d)
 				for _, o := range outs[d] {
 					ins = append(ins, input{dt.Pkg + "/" + o.Rel, o.Node})
@@ -315,7 +355,7 @@ func (r *Repo) Buildable() map[string]bool {
 		broken[p] = true
 	}
 	for _, t := range r.Targets {
-		for _, d := range t.Deps() {
+		for _, d := range r.ResolvedDeps(t) {
 			if d == t.Label() {
 				// plz rejects a self-dependency while parsing ("Attempted to add X as a dependency of
 				// itself"), which fails the whole package like a syntax error does
@@ -341,7 +381,7 @@ func (r *Repo) Buildable() map[string]bool {
 		}
 		state[l] = 1
 		good := !t.Fail && !broken[t.Pkg]
-		for _, d := range t.Deps() {
+		for _, d := range r.ResolvedDeps(t) {
 			if !visit(d) {
 				good = false
 			}
@@ -371,7 +411,7 @@ func (r *Repo) Buildable() map[string]bool {
 			if !ok[t.Label()] {
 				continue
 			}
-			for _, d := range t.Deps() {
+			for _, d := range r.ResolvedDeps(t) {
 				if !ok[d] {
 					ok[t.Label()] = false
 					changed = true
@@ -455,11 +495,27 @@ func (r *Repo) RenderTarget(t *RTarget) string {
 	case "filegroup":
 		return fmt.Sprintf("filegroup(name=%s, srcs=%s, visibility=[\"PUBLIC\"]%s)\n", PyQuote(t.Name), srcExpr, t.Extra)
 	}
+	extra := t.Extra
+	if len(t.Requires) > 0 {
+		extra += ", requires=" + pyList(t.Requires)
+	}
+	if len(t.Provides) > 0 {
+		var ks []string
+		for k := range t.Provides {
+			ks = append(ks, k)
+		}
+		sort.Strings(ks)
+		var kv []string
+		for _, k := range ks {
+			kv = append(kv, PyQuote(k)+": "+PyQuote(t.Provides[k]))
+		}
+		extra += ", provides={" + strings.Join(kv, ", ") + "}"
+	}
 	fn := "genrule"
 	if r.Subinclude {
 		fn = "vgenrule"
 	}
-	return fmt.Sprintf(fn+"(name=%s, srcs=%s, outs=%s, cmd=%s, visibility=[\"PUBLIC\"]%s)\n", PyQuote(t.Name), srcExpr, pyList(t.Outs), PyQuote(t.ShellCmd()), t.Extra)
+	return fmt.Sprintf(fn+"(name=%s, srcs=%s, outs=%s, cmd=%s, visibility=[\"PUBLIC\"]%s)\n", PyQuote(t.Name), srcExpr, pyList(t.Outs), PyQuote(t.ShellCmd()), extra)
 }
 
 // RenderBuild renders the BUILD file of a package.
@@ -491,7 +547,7 @@ func (r *Repo) TreeFiles() map[string]string {
 		m[filepath.Join(f.Pkg, f.Path)] = f.Content
 	}
 	if r.Subinclude {
-		defs := "def vgenrule(name:str, srcs:list, outs:list, cmd:str, visibility:list):\n    return genrule(name=name, srcs=srcs, outs=outs, cmd=cmd, visibility=visibility)\n"
+		defs := "def vgenrule(name:str, srcs:list, outs:list, cmd:str, visibility:list, requires:list=None, provides:dict=None):\n    return genrule(name=name, srcs=srcs, outs=outs, cmd=cmd, visibility=visibility, requires=requires, provides=provides)\n"
 		switch r.BrokenDefs {
 		case "syntax":
 			m["defs/BUILD"] = "filegroup(name=\"defs\", srcs=[\"defs.build_defs\"], visibility=[\"PUBLIC\"])\n"
